@@ -119,7 +119,7 @@ class C03(Check):
     level = "exploration"
     rule = (
         "array level: generated CorrFunc containers (bins 1..8, patches 2..12, auto/cross, sparse/zero rows and columns, "
-        "asymmetric cross counts, every subset of dr/rd/rr) -> every sample row of counts, normalisation, normalised "
+        "asymmetric cross counts, every subset of dr/rd/rr, weight sums of either sign in half of the cases) -> every sample row of counts, normalisation, normalised "
         "ratio, CorrFunc.sample(), RedshiftData.from_corrfuncs compared with the value recomputed after deleting patch k "
         "(numerator and denominator separately, ratios where well conditioned), covariance against the textbook double "
         "loop, symmetry, eigenvalues, error; end-to-end: a real measurement versus the same measurement on catalogs "
